@@ -47,8 +47,8 @@ CLAIMED = {
    note="Int/UInt bytes bounded by |x| < 2^128; fromString strings <= 3 bytes (strconv from source, big.Int.SetString by its documented grammar). toString (strconv.Format, big.Int.Text, fmt), fixed-point fromString and Address/Path string forms are outside the claim; the array-value layer and the wrapper's length gate are outside.",
    design="3 C17"),
  "C40": dict(
-   text="Literal range checks: the real sema.CheckIntegerLiteral for all 20 sized/Word types + Int/UInt on an arbitrary integer value, and sema.CheckFixedPointLiteral / fixedpoint.New{Fix64,UFix64,Fix128,UFix128} on arbitrary (sign, integer part, fractional part, parsed scale): accepted exactly when the scale fits and the exact decimal value is in the type's range, and the converted value equals value*10^scale; plus the real parser.parseIntegerLiteral on every token text of 0..3 (thorough 4) bytes over the digit alphabet plus underscore in bases 2/8/10/16: the resulting value is the mathematical value of the digits, the base is recorded, and an error is reported exactly for leading/trailing underscores or no digits.",
-   note="Unbounded integer/fraction values; parsed scale 0..scale+2; integer literal text <= 3 (4) bytes (big.Int.SetString by its documented grammar). The lexer itself, fixed-point literal text and string escapes are outside. Type ranges in the checker come from the real sema type objects (snapshot of the real build).",
+   text="Literal range checks: the real sema.CheckIntegerLiteral for all 20 sized/Word types + Int/UInt on an arbitrary integer value, and sema.CheckFixedPointLiteral / fixedpoint.New{Fix64,UFix64,Fix128,UFix128} on arbitrary (sign, integer part, fractional part, parsed scale): accepted exactly when the scale fits and the exact decimal value is in the type's range, and the converted value equals value*10^scale; plus the real parser.parseIntegerLiteral on every token text of 0..3 (thorough 4) bytes over the digit alphabet plus underscore in bases 2/8/10/16: the resulting value is the mathematical value of the digits, the base is recorded, and an error is reported exactly for leading/trailing underscores or no digits; and parser.parseFixedPointLiteral on every '<int>.<frac>' text with <=3 (4) digit/underscore bytes around the point: integer and fractional part have the mathematical value of their digits and the scale is the number of fractional digits.",
+   note="Unbounded integer/fraction values; parsed scale 0..scale+2; integer literal text <= 3 (4) bytes (big.Int.SetString by its documented grammar). The lexer itself (see C37) and string/character escapes are outside. Type ranges in the checker come from the real sema type objects (snapshot of the real build).",
    design="3 C40"),
  "C47": dict(
    text="revertibleRandom for the 8 native unsigned types and UInt128 (quick; UInt256/Word128/Word256 in thorough) with a fully symbolic modulus and a generator stub returning arbitrary bytes: result < modulus, each candidate is exactly the fresh bytes reduced mod 2^bitlen(m-1), the minimal number of bytes is drawn, a candidate is accepted iff <= m-1, zero modulus fails, and without modulus all bits of the type come from one draw.",
